@@ -18,6 +18,7 @@ pub enum Got {
     Val(u64),
     Hint(usize, Option<usize>),
     Count(usize),
+    Panicked,
 }
 
 impl World {
@@ -149,18 +150,27 @@ impl World {
 
     pub fn do_iterwalk(&mut self, kind: IterKind, calls: &[Call], rest: Rest, fate: Fate) {
         let pre = self.pre();
-        self.pending_inject = None;
+        // the only user code an iterator runs are destructors (of what it skips or drops)
+        let inj = self.pending_inject.filter(|i| i.0.is_drop() && !kind.borrowing());
+        self.pending_inject = inj;
         let order: Vec<Ent> = self.side().model.order.clone();
         let len = order.len();
         let plan = plan_walk(calls, rest, len);
         // a finishing consumer takes the iterator by value: nothing is left to forget
-        let fate = if plan.fin.finishing() { Fate::Drop } else { fate };
+        // the closure of a finishing consumer may unwind at its (k+1)-th item
+        let unwind_at: Option<usize> = match fate { Fate::Unwind(k) if plan.fin.finishing() && plan.fin != Rest::Count => Some(k as usize), _ => None };
+        let fate = if plan.fin.finishing() || matches!(fate, Fate::Unwind(_)) { Fate::Drop } else { fate };
+        // with a destructor panic armed, a panic coming out of one call is caught
+        // there and the iterator stays in use
+        let catch_each = inj.is_some();
+        let unwound = std::cell::Cell::new(false);
+        let panicked_calls = std::cell::Cell::new(0u32);
         let plan_txt = format!("{}{}", calls_text(&plan.calls), if plan.fin.finishing() { format!("+{}", plan.fin.to_text()) } else { String::new() });
         self.log(format!("iterwalk {} calls={} fate={:?} over len {}", kind.name(), plan_txt, fate, len));
 
         // expected results
         let exp = expect_walk(&plan, len);
-        let yielded: BTreeSet<usize> = exp.yielded.clone();
+        let mut yielded: BTreeSet<usize> = exp.yielded.clone();
         let exhausted_at = exp.exhausted_at;
 
         let mut got: Vec<Got> = Vec::with_capacity(plan.calls.len());
@@ -168,6 +178,9 @@ impl World {
         let mut taken_k: Vec<TKey> = Vec::new();
         let mut taken_v: Vec<TVal> = Vec::new();
         let forget = fate == Fate::Forget;
+        if forget {
+            self.forget_seen = true;
+        }
         let a = self.active;
         let run;
         {
@@ -176,14 +189,24 @@ impl World {
             let tk = &mut taken_k;
             let tv = &mut taken_v;
             let plan_ref = &plan;
+            let unwound_ref = &unwound;
+            let panicked_ref = &panicked_calls;
             macro_rules! sink {
                 ($conv:expr) => {
                     |o| match o {
                         WalkOut::Item(None) => got_ref.push(Got::None),
                         WalkOut::Item(Some(x)) => { let g = $conv(x); got_ref.push(g); },
                         WalkOut::Hint(lo, hi) => got_ref.push(Got::Hint(lo, hi)),
-                        WalkOut::Fin(x) => { let g = $conv(x); fin_ref.push(g); },
+                        WalkOut::Fin(x) => {
+                            let g = $conv(x);
+                            fin_ref.push(g);
+                            if unwind_at == Some(fin_ref.len() - 1) {
+                                unwound_ref.set(true);
+                                panic!("{}", tracked::INJECTED);
+                            }
+                        },
                         WalkOut::Count(n) => fin_ref.push(Got::Count(n)),
+                        WalkOut::Panicked => { panicked_ref.set(panicked_ref.get() + 1); got_ref.push(Got::Panicked); },
                     }
                 };
             }
@@ -196,11 +219,11 @@ impl World {
                 drop(old.cache);
                 run = self.run(&[], move |_unused| {
                     match kind {
-                        IterKind::IntoIter => drive_walk(cache.into_iter(), plan_ref, forget,
+                        IterKind::IntoIter => drive_walk_opts(cache.into_iter(), plan_ref, forget, catch_each,
                             sink!(|(k, v): (TKey, TVal)| { let g = Got::Pair(k.id, v.id); tk.push(k); tv.push(v); g })),
-                        IterKind::IntoKeys => drive_walk(cache.into_keys(), plan_ref, forget,
+                        IterKind::IntoKeys => drive_walk_opts(cache.into_keys(), plan_ref, forget, catch_each,
                             sink!(|k: TKey| { let g = Got::Key(k.id); tk.push(k); g })),
-                        _ => drive_walk(cache.into_values(), plan_ref, forget,
+                        _ => drive_walk_opts(cache.into_values(), plan_ref, forget, catch_each,
                             sink!(|v: TVal| { let g = Got::Val(v.id); tv.push(v); g })),
                     }
                 });
@@ -212,17 +235,68 @@ impl World {
                             sink!(|(k, v): (&TKey, &TVal)| Got::Pair(k.id, v.id))),
                         IterKind::Keys => drive_walk(c.keys(), plan_ref, forget, sink!(|k: &TKey| Got::Key(k.id))),
                         IterKind::Values => drive_walk(c.values(), plan_ref, forget, sink!(|v: &TVal| Got::Val(v.id))),
-                        _ => drive_walk(c.drain(), plan_ref, forget,
+                        _ => drive_walk_opts(c.drain(), plan_ref, forget, catch_each,
                             sink!(|(k, v): (TKey, TVal)| { let g = Got::Pair(k.id, v.id); tk.push(k); tv.push(v); g })),
                     }
                 });
             }
         }
-        if let Some(msg) = &run.panic {
+        let unwound = unwound.get();
+        let panicked_calls = panicked_calls.get();
+        if run.panic.is_some() && unwound && !run.injected {
+            // the harness' own closure unwound out of a finishing consumer: the
+            // iterator went away with the unwinding, exactly as if it had been
+            // dropped there. What the closure received belongs to the harness.
+            self.stats.ev("walk.unwound-in-consumer");
+        }
+        else if run.panic.is_some() || panicked_calls > 0 {
+            let msg = run.panic.clone().unwrap_or_default();
+            let msg = &msg;
+            if run.injected || panicked_calls > 0 {
+                // a destructor panicked inside nth / a skipping adaptor / the
+                // iterator's own destructor; the unwinding has dropped the iterator.
+                // What was handed out before belongs to the harness.
+                let (cb, nth, _) = inj.unwrap();
+                let ctx = kind.name();
+                for k in taken_k { self.take_key(k, ctx); }
+                for v in taken_v { self.take_val(v, ctx); }
+                for e in &order {
+                    tracked::set_leak_ok(e.key_id);
+                    tracked::set_leak_ok(e.val_id);
+                }
+                if kind == IterKind::Drain {
+                    // "once a drain is dropped the cache is empty ... and fully usable"
+                    let all: BTreeSet<u16> = order.iter().map(|e| e.k).collect();
+                    let nf = self.fails.len();
+                    self.after_injected_panic(&pre, "drain", cb, nth, &all, false);
+                    if self.fails.len() == nf {
+                        let (l, c) = { let o = &self.side().last_obs; (o.len, o.cur) };
+                        ck!(self, l == 0 && c == 0, ["C12", "C02"], "drain-not-empty@drop-panic",
+                            "after a drain went away through a panicking destructor len/current_size are {}/{}", l, c);
+                    }
+                }
+                else {
+                    self.leaks_allowed = true;
+                    self.drop_panic_seen = true;
+                    self.stats.ev("inject.fired-in-destructor");
+                    let nf = self.fails.len();
+                    self.collect_vios(ctx);
+                    for f in self.fails.iter_mut().skip(nf) { f.sig = format!("{}@drop-panic", f.sig); }
+                    self.stats.steps += 1;
+                }
+                return;
+            }
             self.unexpected_panic("iterwalk", msg);
             for k in taken_k { tracked::set_leak_ok(k.id); std::mem::forget(k); }
             for v in taken_v { tracked::set_leak_ok(v.id); std::mem::forget(v); }
             return;
+        }
+
+        if unwound {
+            // only what the closure received before it unwound was handed out
+            let k = unwind_at.unwrap_or(0);
+            yielded = exp.per_call.iter().flatten().copied().collect();
+            yielded.extend(exp.fin_items.iter().take(k + 1).copied());
         }
 
         // ---- C12: the sequence of results
@@ -270,10 +344,13 @@ impl World {
                 format!("{} answered {} of {} calls", kind.name(), got.len(), exp.per_call.len()));
         }
         if plan.fin.finishing() && results_ok && (exhausted_at.is_none() || kind.fused()) {
-            let want: Vec<Got> = match exp.fin_count {
+            let mut want: Vec<Got> = match exp.fin_count {
                 Some(n) => vec![Got::Count(n)],
                 None => exp.fin_items.iter().map(|&p| want_of(p)).collect(),
             };
+            if unwound {
+                want.truncate(unwind_at.unwrap_or(0) + 1);
+            }
             if fin_got != want {
                 self.fail(tags12.clone(), format!("walk-fin:{}:{}", kind.name(), plan.fin.to_text().trim_end_matches(char::is_numeric)),
                     format!("{} after calls {}: {} handed out {:?}, expected {:?} (len {})", kind.name(),
@@ -413,6 +490,10 @@ impl World {
 
     pub fn do_clone(&mut self, mode: CloneMode) {
         let pre = self.pre();
+        if mode == CloneMode::Unwinding {
+            // a second panic while unwinding aborts the process: no injection here
+            self.pending_inject = None;
+        }
         let inj = self.pending_inject;
         let len = self.side().model.len();
         self.log(format!("clone {:?} (len {})", mode, len));
@@ -438,9 +519,25 @@ impl World {
         // it is still the caller's cache and has to be a valid one
         let mut target_slot = target.take();
         let tref = &mut target_slot;
+        let unwinding = mode == CloneMode::Unwinding;
         let run = self.run(&[], |c| -> Option<Cache> {
             match tref.as_mut() {
                 Some(t) => { t.clone_from(c); None },
+                None if unwinding => {
+                    // a destructor that snapshots the cache, running because the
+                    // code around it panicked
+                    struct Snapshot<'a> { cache: &'a Cache, out: &'a mut Option<Cache> }
+                    impl<'a> Drop for Snapshot<'a> {
+                        fn drop(&mut self) { *self.out = Some(self.cache.clone()); }
+                    }
+                    let mut out = None;
+                    let cref: &Cache = c;
+                    let _ = std::panic::catch_unwind(std::panic::AssertUnwindSafe(|| {
+                        let _s = Snapshot { cache: cref, out: &mut out };
+                        panic!("{}", tracked::INJECTED);
+                    }));
+                    out
+                },
                 None => Some(c.clone()),
             }
         });
@@ -602,7 +699,7 @@ impl World {
                 self.collect_vios("dropping the clone");
                 self.expect_dropped(&ents, vec!["C06", "C14"], "dropping the clone");
             },
-            CloneMode::Swap => {
+            CloneMode::Swap | CloneMode::Unwinding => {
                 let s = self.sides.pop().unwrap();
                 let a = self.active;
                 let old = std::mem::replace(&mut self.sides[a], s);
